@@ -86,7 +86,10 @@ def entry_wf(k, v):
 def gen_docstring(rng, style, names):
     entries = []
     for n in names:
-        entries.append((n, rng.choice(TYPES + [None]), rng.choice(DESCS)))
+        t = rng.choice(TYPES + [None])
+        if style == "rest" and n.startswith("**") and rng.random() < 0.6:
+            t = rng.choice(["**kwargs", n])        # the type of a ** parameter spelled like the parameter (":type kwargs: ```**kwargs```", as cdd's own sources do)
+        entries.append((n, t, rng.choice(DESCS)))
     ret = (rng.choice(TYPES), rng.choice(DESCS)) if rng.random() < 0.6 else None
     blocks = []
     if style == "rest":
